@@ -157,6 +157,16 @@ pub fn spec_library() -> ParsingLibrary {
             .collect::<FxHashMap<_, _>>()
 }
 
+/// Verification hook (add-only): the raw entries of the parsing library, i.e. for each shipped
+/// parser its name, the regular expression specifying it and the shipped serialized automaton.
+#[cfg(feature = "verif-hooks")]
+pub fn verif_spec_library_data() -> Vec<(String, Regex, &'static [u8])> {
+    spec_library_data()
+        .iter()
+        .map(|(name, spec, bytes)| (format!("{:?}", name), spec(), *bytes))
+        .collect()
+}
+
 // Regex formalising the spec of `StdLIbParser::Jwt`.
 fn spec_jwt() -> Regex {
     // Content of a basic field (RFC 8259 JSON string), possibly marked if `marker`
